@@ -18,7 +18,7 @@ import numpy as np
 from pvm.ref import c28_rational as R
 
 PROP = "C29"
-N = {"quick": 800, "thorough": 60000}
+N = {"quick": 800, "thorough": 30000}
 WORKERS = {"quick": 4, "thorough": 16}
 TIMEOUT = {"quick": 300, "thorough": 3000}
 RULE = ("2-8 (thorough: up to 12) integer segments in [0,6]^2 from seeded recipes: uniform, "
